@@ -1408,3 +1408,8 @@ mod tests {
         assert!(cookie.is_some());
     }
 }
+
+// verification hook (guard: cfg(kani)); contract harnesses live outside the repository
+#[cfg(kani)]
+#[path = "/verif/kani/ntp_proto/packet/extension_fields.rs"]
+mod verif;
